@@ -66,7 +66,7 @@ func Explore(cfg Config, o Opts, body func(), check func(r *Result) Verdict) *St
 		o.MaxViol = 8
 	}
 	if o.MaxState == 0 {
-		o.MaxState = 30_000_000
+		o.MaxState = 5_000_000 // per unit; beyond it `states` is a lower bound (the set costs ~50 bytes per entry and 16 workers run at once)
 	}
 	visited := map[uint64]struct{}{}
 	keys := map[string]bool{}
